@@ -1,6 +1,12 @@
 HOOK_COMMITS = ["4e6fe67", "2b7356b"]
 NOT_YET = {}
 META = {
+    "C17": {
+        "text": "Theorems over the interpreter of the step programs regenerated from src/utils/cell.rs (get_or_try_init_default / _no_drop, dispatch, Drop and get arm tables): for every number of threads, every list of calls with every initialiser outcome (ok / err / panic, mutating the seed), every seed kind (no destructor, destructor, panicking destructor) and every schedule: at most one initialiser succeeds and all references returned are to its value; a failed initialiser leaves the cell empty and still owning the (mutated) seed and a later attempt succeeds; get is one always-enabled step; the seed is owned by exactly one of cell / escaping local / ledger at every step and never touched on the dead union arm; Drop accounts for seed and value exactly once; a panicking seed destructor leaves the cell initialised; no deadlock.",
+        "design_ref": "DESIGN.md §6 C17",
+        "note": "Trusted: Lean kernel; amx statement recogniser; hand-written meaning of each statement token; once_cell as an assumed primitive; SC. Tie: Gen/Cell.lean regenerated from the source each run and interpreted by the model; the cell engine diffs sequential lives of real OnceInitCell<u64|TSeed|BSeed, Val> against the model, validates free-running and forced-overlap concurrent outcomes against the model's schedules, and checks call counts / addresses / drop ledger with an oracle written from the statement.",
+        "technique": "Lean 4 proof over model regenerated from source + differential correspondence",
+    },
     "C18": {
         "text": "Theorems over the definitions regenerated from src/entry.rs: update = (max, grew) for ReloadId and AtomicReloadId, NEVER least, every atomic method is a single RMW primitive, and for every linearisation (= every schedule of any number of threads) final = max offered, told-true iff grew, each growth reported exactly once and never lost. Unbounded in values, number of calls and threads.",
         "design_ref": "DESIGN.md §6 C18",
